@@ -338,6 +338,9 @@ def run_once(sc, faults):
         o.fs_fired = list(fs.fired)
         o.out_fired = out_raw.fired
         o.err_fired = err_raw.fired
+        # a short write that was never followed by an error: the text layer of an unbuffered stream
+        # (TextIOWrapper over a raw file) ignores the short count, so the program is never told
+        o.silent_short_write = (out_raw.short_accepts > 0 and out_raw.fired == 0) or (err_raw.short_accepts > 0 and err_raw.fired == 0)
         o.out_writes = out_raw.write_calls
         o.err_writes = err_raw.write_calls
         o.out_bytes = res.out_bytes
@@ -384,6 +387,10 @@ def any_fault_fired(o):
 def judge(sc, o):
     """Returns None or (class, detail)."""
     res = o.res
+    if getattr(o, 'silent_short_write', False):
+        # data was lost below the program's reach (CPython's unbuffered text layer drops the tail of a
+        # short write without raising): no implementation of the CLI could notice, so nothing is judged
+        return None
     parses, ast = oracle_parse(sc['mode'], o.delivered)
     expected = mirror(ast) if parses else None
     ok_json, doc = strict_json(res.stdout)
@@ -587,6 +594,8 @@ def execute(sc, cfg, stats=None, only_plan=None, trace=None):
             if o.itr_fired:
                 count('site_interrupt')
         count('handler_' + handler_of(o))
+        if getattr(o, 'silent_short_write', False):
+            count('runs_not_judged_silent_short_write')
         v = judge(sc, o)
         if v:
             violations.append(_mkviol(sc, faults, o, v))
@@ -884,6 +893,7 @@ def main(argv):
         'path_kinds': {k[5:]: v for k, v in sorted(stats.items()) if k.startswith('path_')},
         'argv_shapes': {k[5:]: v for k, v in sorted(stats.items()) if k.startswith('mode_')},
         'json_documents_compared_fault_free': stats.get('json_documents_compared', 0),
+        'runs_not_judged_because_a_short_write_was_silently_dropped_by_the_unbuffered_text_layer': stats.get('runs_not_judged_silent_short_write', 0),
         'real_process_crosscheck': {'cases': [c[0] for c in REAL_CASES], 'modes': ['block-buffered', 'unbuffered'], 'stub_disagreements': cross, 'violations_in_real_processes': len(real_violations)},
         'runs_skipped_for_time': stats.get('runs_skipped_for_time', 0),
         'pythonhashseed': os.environ.get('PYTHONHASHSEED'),
